@@ -51,7 +51,7 @@ func vAddOp(sw *spec.Swagger, method, path string, op *spec.Operation) {
 
 // one security requirement list out of a small catalogue; nil means "not specified"
 func vSecurityChoice(tag string, allowNil bool) ([]map[string][]string, bool) {
-	n := 7
+	n := 9
 	k := vChoice(tag, n)
 	switch k {
 	case 0:
@@ -67,6 +67,10 @@ func vSecurityChoice(tag string, allowNil bool) ([]map[string][]string, bool) {
 		return []map[string][]string{{"key": {}, "oauth": {"read"}}}, true // AND
 	case 4:
 		return []map[string][]string{{"key": {}}, {"basic": {}}}, true // OR
+	case 7:
+		return []map[string][]string{{"key": {}, "oauth": {"read", "write"}}}, true // same schemes as 3, more scopes
+	case 8:
+		return []map[string][]string{{"basic": {}, "key": {}}, {"oauth": {"read"}}}, true // same shape as the default case, fewer scopes
 	case 6:
 		return []map[string][]string{{"ghost": {}}}, true // names a scheme that is not declared: must fail closed
 	default:
@@ -103,7 +107,7 @@ func VerifC06Security() {
 		vAddOp(sw, []string{"GET", "DELETE"}[i], "/thing", op)
 		ops = append(ops, opIn{id, own, specified})
 	}
-	app, err := vAppGenerator(sw).makeCodegenApp()
+	app, err := vPlanApp(sw)
 	vAssert(err == nil, "makeCodegenApp failed")
 	if err != nil {
 		return
@@ -194,7 +198,7 @@ func VerifC08App() {
 	for i := 0; i <= nd; i++ {
 		sw.Definitions[defs[i]] = vObj(map[string]spec.Schema{"id": *spec.Int64Property()})
 	}
-	app, err := vAppGenerator(sw).makeCodegenApp()
+	app, err := vPlanApp(sw)
 	vAssert(err == nil, "makeCodegenApp failed")
 	if err != nil {
 		return
@@ -282,7 +286,7 @@ func VerifC04Media() {
 	}
 	op.Responses = rs
 	vAddOp(sw, "POST", "/x", op)
-	app, err := vAppGenerator(sw).makeCodegenApp()
+	app, err := vPlanApp(sw)
 	vAssert(err == nil, "makeCodegenApp failed")
 	if err != nil {
 		return
@@ -409,7 +413,7 @@ func VerifC03Params() {
 		path = "/x/{limit}"
 	}
 	vAddOp(sw, "POST", path, op)
-	app, err := vAppGenerator(sw).makeCodegenApp()
+	app, err := vPlanApp(sw)
 	vAssert(err == nil, "makeCodegenApp failed")
 	if err != nil {
 		return
